@@ -333,7 +333,7 @@ func (r *Report) finish(repo, verif, prop, tier string, writeEvidence bool) int 
 		report(n, "obligation expected on the pinned tree was not generated (contract lost, function renamed or path no longer reachable)", "", nil)
 	}
 	for _, o := range r.Obs {
-		if o.ob.Kind == "cover" && o.Status == "uncovered" && exp[o.Name] {
+		if o.ob.Kind == "cover" && o.Status == "uncovered" {
 			report(o.Name, "cover check: return no longer reachable under the precondition (vacuity)", "", nil)
 		}
 	}
